@@ -337,9 +337,14 @@ def expand_traj(d: dict, pm_desc: dict | None = None) -> dict:
     take-off flow.  (Positive flows orders of magnitude below idle are not a
     documented input of the log-log BFFM2 fits, which overflow there.)"""
     burn = [float(b) for b in d['burn']]  # burn[i] = fuel used on segment ending at point i+1
+    reserve = float(d['reserve'])
+    if d.get('int_kg'):
+        # whole kilograms, held in an integer array by a trajectory-like object (see build_traj)
+        burn = [float(round(b)) for b in burn]
+        reserve = float(round(reserve))
     n = len(burn) + 1
     fm = [0.0] * n
-    fm[-1] = float(d['reserve'])
+    fm[-1] = reserve
     for i in range(n - 2, -1, -1):
         fm[i] = fm[i + 1] + burn[i]
     alt = [float(d['top_alt']) * float(f) for f in d['alt_frac']]
@@ -354,14 +359,35 @@ def expand_traj(d: dict, pm_desc: dict | None = None) -> dict:
         ff = [0.0 if u is None else ne * (lo + float(u) * (hi - lo)) for u in d['ff_u']]
     if not (len(alt) == len(tas) == len(ff) == n):
         raise core.HarnessError('inconsistent synthetic trajectory description')
-    return {'fuel_mass': fm, 'altitude': alt, 'true_airspeed': tas, 'fuel_flow': ff,
+    return {'fuel_mass': fm, 'altitude': alt, 'true_airspeed': tas, 'fuel_flow': ff, 'int_kg': bool(d.get('int_kg')),
             'n_climb': int(d['n_climb']), 'n_cruise': int(d['n_cruise']), 'n_descent': int(d['n_descent'])}
+
+
+class DuckTrajectory:
+    """A trajectory-like object of the kind the repository's own emission tests pass to compute_emissions (plain
+    attributes, __len__).  Used for the `int_kg` class: a fuel-mass profile in whole kilograms held in an integer array,
+    which a caller's own bookkeeping can produce and which the real Trajectory class would silently cast."""
+
+    def __init__(self, x: dict):
+        import numpy as np
+
+        self.fuel_mass = np.array([int(v) for v in x['fuel_mass']], dtype=np.int64)
+        self.altitude = np.array(x['altitude'], dtype=float)
+        self.true_airspeed = np.array(x['true_airspeed'], dtype=float)
+        self.fuel_flow = np.array(x['fuel_flow'], dtype=float)
+        self.n_climb, self.n_cruise, self.n_descent = x['n_climb'], x['n_cruise'], x['n_descent']
+        self.name = 'generated-int'
+
+    def __len__(self):
+        return len(self.fuel_mass)
 
 
 def build_traj(x: dict):
     import numpy as np
     from AEIC.trajectories.trajectory import Trajectory
 
+    if x.get('int_kg'):
+        return DuckTrajectory(x)
     n = len(x['fuel_mass'])
     t = Trajectory(n, name='generated')
     t.fuel_mass = np.array(x['fuel_mass'], dtype=float)
@@ -1239,8 +1265,11 @@ def st_synthetic_traj():
         else:
             nc = 0 if kind == 'no_climb' else draw(st.integers(0, total))
             nd = 0 if kind == 'no_descent' else draw(st.integers(0, total - nc))
-        return {'burn': burn, 'reserve': reserve, 'top_alt': top, 'alt_frac': frac, 'mach': mach, 'ff_u': ff_u,
-                'n_climb': nc, 'n_cruise': total - nc - nd, 'n_descent': nd}
+        out = {'burn': burn, 'reserve': reserve, 'top_alt': top, 'alt_frac': frac, 'mach': mach, 'ff_u': ff_u,
+               'n_climb': nc, 'n_cruise': total - nc - nd, 'n_descent': nd}
+        if draw(st.integers(0, 7)) == 0:
+            out['int_kg'] = True
+        return out
 
     return traj()
 
